@@ -53,6 +53,7 @@ class P(Prop):
         ("TracklibVerif.Props.C12", "TV.C12.optimal_min", "T2: in MINIMIZE mode the summed segment cost of the result is <= that of every strictly increasing list from 0 to N-1"),
         ("TracklibVerif.Props.C12", "TV.C12.optimal_max", "T2: in MAXIMIZE mode it is >= that of every such list"),
         ("TracklibVerif.Props.C12", "TV.C12.table_value", "the in-place D/M table programme (run by the driver) computes the interval recursion opt; D[0,N-1] is the cost of the returned list"),
+        ("TracklibVerif.Props.C12", "TV.C12.array_form", "the programme on real 2-D arrays (what the driver runs) returns the same list and tables as the function-table form"),
         ("TracklibVerif.Props.C12", "TV.C12.segmentation_optimal", "T3: optimalSegmentation's result is a chain 0..size-2 optimal in the requested direction for the costs cost(track,a,b-1)"),
         ("TracklibVerif.Props.C12", "TV.C12.segmentation_optimal_min", "T3: minimising instance"),
         ("TracklibVerif.Props.C12", "TV.C12.segmentation_optimal_max", "T3: maximising instance"),
@@ -288,11 +289,17 @@ class P(Prop):
             rec["mode"] = int(mode)
             rec["idx"] = [int(x) for x in r]
             return r
+        # minCircle perturbs degenerate point triples with the global `random`: make the run a function of the case,
+        # so that the matrix captured for the model request is the one the implementation output was computed from
+        import random as _random, json as _json, zlib as _zlib
+        state = _random.getstate()
+        _random.seed(_zlib.crc32(_json.dumps(case, sort_keys=True).encode()))
         self.S.optimalPartition = spy
         try:
             self.S.findStopsGlobal(t, case["diameter"], case["duration"], 1, False)
         finally:
             self.S.optimalPartition = real
+            _random.setstate(state)
         if "C" not in rec:
             raise ValueError("findStopsGlobal did not call optimalPartition")
         return rec
@@ -355,6 +362,10 @@ class P(Prop):
     def compare(self, case, impl_out, model_out):
         if case.get("dom"):
             return None   # single/no candidate, asymmetric matrix: outside the property's domain, behaviour left free
+        if self.classify(case, impl_out, None) and self.spec(case, impl_out) is None:
+            # the model mirrors finding D19 (direction not forwarded / TypeError); an implementation in which the
+            # defect has been repaired answers what the property asks for, which is not a disagreement to report
+            return None
         if "err" in impl_out or "err" in model_out:
             if impl_out.get("err") == model_out.get("err"):
                 return None
